@@ -129,8 +129,13 @@ func (p *pool) remove(peers ...peer.ID) {
 	for _, peerID := range peers {
 		if status, ok := p.statuses[peerID]; ok && status != removed {
 			p.statuses[peerID] = removed
-			if status == active {
+			switch status {
+			case active:
 				p.activeCount--
+			case cooldown:
+				// drop the pending cool-down: if the peer is added and put on cool-down again,
+				// the expiry of this earlier cool-down must not re-activate it ahead of time
+				p.cooldown.remove(peerID)
 			}
 		}
 	}
